@@ -143,6 +143,7 @@ def slOp (cw : Nat → Nat) (op : String) (W : Nat) (cur : Style) (l : SLine) (x
       let (r, _, p, q) := writeSpanLine cw W cur l a (blankSpan cur (b - a)) false
       (r, 0, 0, 0, (p : Int), (q : Int), 0, 0, [])
     | "text" => (l, 0, 0, 0, none', none', 0, 0, lineText W l)
+    | "ansi" => (l, 0, 0, 0, none', none', 0, 0, lineANSI l)
     | "styled" =>
       -- `n = 4294967295` stands for a negative width ("to the end of the row")
       let (sp, w) := styledLine cw W l x (if n = 4294967295 then none else some n)
